@@ -26,6 +26,10 @@ mod ffi {
         pub fn with_beta(&self, b: &Beta, c: Color, p: Pair) -> Out { Out { alpha: Box::new(Alpha(b.0)), beta: None, pair: p } }
         // keyword-named parameters
         pub fn keywords(&self, int: i32, class: u8, new: u16, default: bool, namespace: i8, function: u64, typedef: i16, char: u8, long: i8) -> i32 { int }
+        // keyword-named parameters of every kind of type (each kind goes through its own conversion code)
+        pub fn keywords2(&self, class: &str, new: &[u8], default: Option<u8>, namespace: &Beta, typedef: Pair, union: Color, template: Option<&Alpha>,
+                         register: &DiplomatStr16, switch: Option<Leaf>, delete: &mut [u16], operator: Box<str>) -> i32 { 0 }
+        pub fn keywords3(auto: &str, export: &str, private: Option<&str>, volatile: Option<&[u8]>, explicit: Box<[i32]>) -> u8 { 0 }
         pub fn leaf(l: Leaf) -> Pair { Pair { a: 1, inner: l } }
     }
     impl Beta {
@@ -43,10 +47,25 @@ mod ffi {
     #[diplomat::attr(supports = namespacing, namespace = "outer")]
     pub struct SpacedStruct { pub v: u8, pub c: Color }
     #[diplomat::opaque]
+    #[diplomat::attr(supports = namespacing, namespace = "outer::inner")]
+    pub struct SpacedPeer(pub u8);
+    #[diplomat::attr(supports = namespacing, namespace = "outer::inner")]
+    pub struct PeerStruct { pub q: u8, pub s: SpacedStruct }
+    #[diplomat::opaque]
+    #[diplomat::attr(supports = namespacing, namespace = "outer::inner::deep")]
+    pub struct Deep(pub u8);
+    impl SpacedPeer {
+        pub fn peer(&self, sp: &Spaced, d: &Deep, ps: PeerStruct) -> PeerStruct { ps }
+    }
+    impl Deep {
+        pub fn up(&self, sp: &Spaced, peer: &SpacedPeer, s: SpacedStruct, ps: PeerStruct) -> Box<SpacedPeer> { Box::new(SpacedPeer(0)) }
+    }
+    #[diplomat::opaque]
     #[diplomat::attr(*, rename = "Renamed{0}")]
     pub struct Plain(pub u8);
     impl Spaced {
         pub fn get(&self, s: SpacedStruct, p: &Plain) -> SpacedStruct { s }
+        pub fn same_ns(&self, peer: &SpacedPeer, ps: PeerStruct, d: &Deep) -> Box<SpacedPeer> { Box::new(SpacedPeer(1)) }
         pub fn plain(&self) -> Box<Plain> { Box::new(Plain(1)) }
     }
     impl Plain {
